@@ -50,9 +50,21 @@ def internal_min_opset() -> int:
         elif isinstance(st, ast.AnnAssign) and isinstance(st.target, ast.Name) and st.value is not None:
             tgt, v = st.target.id, st.value
         if tgt == "INTERNAL_MIN_OPSET":
-            val = ast.literal_eval(v)
-    if not isinstance(val, int) or val < 0:
-        raise RuntimeError("INTERNAL_MIN_OPSET is not a literal natural number any more")
+            try:
+                val = ast.literal_eval(v)
+            except Exception:  # noqa: BLE001
+                val = None
+    if isinstance(val, bool) or not isinstance(val, int) or val < 0:
+        # not a literal any more: take the value the module computes; unknown -> 0 (default_floor fails)
+        try:
+            _use_repo()
+            import spox._internal_op as io
+
+            val = int(io.INTERNAL_MIN_OPSET)
+        except Exception:  # noqa: BLE001
+            val = 0
+        if val < 0:
+            val = 0
     return val
 
 
@@ -168,9 +180,24 @@ def form_compat(domain: str, op: str, s: int, t: int) -> bool:
 
 
 def collect() -> dict:
-    imo = internal_min_opset()
-    rows = shipped_table()
-    runs, ranges = schemas_rle()
+    """Every part degrades to an empty table (the obligations and the correspondences that need it then
+    fail and are reported as broken) instead of raising when the source no longer has the expected shape."""
+    problems = []
+    try:
+        imo = internal_min_opset()
+    except Exception as e:  # noqa: BLE001
+        imo = 0
+        problems.append(f"INTERNAL_MIN_OPSET: {e}")
+    try:
+        rows = shipped_table()
+    except Exception as e:  # noqa: BLE001
+        rows = []
+        problems.append(f"shipped constructors: {e}")
+    try:
+        runs, ranges = schemas_rle()
+    except Exception as e:  # noqa: BLE001
+        runs, ranges = {}, {d: (1, 0) for d in DOMAINS}
+        problems.append(f"SCHEMAS: {e}")
     names = sorted({(d, n) for (d, n) in runs} | {(r["domain"], r["op"]) for r in rows})
     op_id = {k: i for i, k in enumerate(names)}
     compat = []
@@ -182,7 +209,7 @@ def collect() -> dict:
                 if t > s and form_compat(d, n, s, t):
                     compat.append((d, n, s, t))
     return {"internal_min_opset": imo, "shipped": rows, "runs": runs, "ranges": ranges,
-            "names": names, "op_id": op_id, "compat": compat}
+            "names": names, "op_id": op_id, "compat": compat, "problems": problems}
 
 
 def generate() -> dict:
